@@ -106,6 +106,34 @@ theorem wf_id_lt {S : Schema} (hwf : S.wf = true) {c id : Nat} {ct : Ctor}
   simp only [Ctor.ok, hid, Bool.and_eq_true, decide_eq_true_eq] at this
   exact this.2
 
+/-! ### the decode parameter `generic` is irrelevant to well-formedness -/
+
+theorem findIn_generic (S : Schema) (g : Option Nat) (id : Nat) :
+    ∀ cs, findIn { S with generic := g } id cs = findIn S id cs := by
+  intro cs
+  induction cs with
+  | nil => rfl
+  | cons c cs ih => simp only [findIn, ih]; rfl
+
+theorem idsDistinct_generic (S : Schema) (g : Option Nat) :
+    ∀ cs, idsDistinct { S with generic := g } cs = idsDistinct S cs := by
+  intro cs
+  induction cs with
+  | nil => rfl
+  | cons c cs ih =>
+    simp only [idsDistinct, ih]
+    have : ctorId { S with generic := g } c = ctorId S c := rfl
+    rw [this]
+    cases ctorId S c with
+    | none => rfl
+    | some id => simp only [findIn_generic]
+
+theorem wf_generic (S : Schema) (g : Option Nat) : ({ S with generic := g } : Schema).wf = S.wf := by
+  unfold Schema.wf
+  congr 1
+  have : idsDistinct { S with generic := g } = idsDistinct S := funext (idsDistinct_generic S g)
+  rw [this]
+
 /-! ### the motives -/
 
 def RtVal (S : Schema) (v : Val) : Prop :=
@@ -228,6 +256,27 @@ theorem rt_obj (S : Schema) (hwf : S.wf = true) (c : Nat) (fs : Vals) (ih : RtVa
                 have hlt := wf_id_lt hwf hc hid
                 simp only [decTy, hc, Bool.false_eq_true, if_false, hid, List.append_assoc,
                   consumeID_putU32 id _ hlt, ih.1 [] ct.fields ef rest f hef hf']
+      · exact absurd he (by simp)
+    | generic =>
+      simp only [encTy] at he
+      split at he
+      · rename_i hg
+        cases hc : S.ctors[c]? with
+        | none => simp [hc] at he
+        | some ct =>
+          simp only [hc] at he
+          cases hef : encFields S [] ct.fields fs with
+          | none => simp [hef] at he
+          | some ef =>
+            simp only [hef] at he
+            cases hid : ct.id with
+            | none => simp [hid] at he
+            | some id =>
+              simp only [hid, Option.some.injEq] at he
+              subst he
+              have hlt := wf_id_lt hwf hc hid
+              simp only [decTy, hg, hc, hid, List.append_assoc,
+                consumeID_putU32 id _ hlt, ih.1 [] ct.fields ef rest f hef hf']
       · exact absurd he (by simp)
     | _ => simp [encTy] at he
 
